@@ -4,6 +4,7 @@
 Require Import ExtrOcamlBasic.
 From Casbin Require Import Base Store Roles Machine Dist.
 Separate Extraction
-  Dist.dstep Dist.drun Dist.decide_rbac Dist.decide_domain Dist.added Dist.removed
+  Dist.dstep Dist.drun Dist.rstep Dist.rrun Dist.decide_rbac Dist.decide_domain Dist.decide_priority Dist.added Dist.removed
+  Store.has
   Machine.init_state Machine.listed Machine.get_store Machine.get_links
   Roles.has_link Roles.get_roles Roles.get_users.
